@@ -564,7 +564,7 @@ def run(names=None, repo=None, outdir=None):
     outdir = outdir or os.path.join(os.path.dirname(os.path.abspath(__file__)), "..", "coq", "Gen")
     os.makedirs(outdir, exist_ok=True)
     errors, written = [], []
-    for name in (names or sorted(GENERATORS)):
+    for name in (sorted(GENERATORS) if names is None else names):      # [] = none (a check without generated files)
         try:
             text = GENERATORS[name](repo)
         except TranslateError as e:
